@@ -854,6 +854,19 @@ func (env *Env) trCall(e *E) Val {
 		}
 		cell := fmt.Sprintf("(clovar %s %d)", arg(0).S, e.A[1].N)
 		return Val{S: sel(env.heap("C_Int"), cell), Sort: "Int"}
+	case "objOf": // objOf(s): the identity of the array object behind slice s (0 for nil)
+		x := arg(0)
+		if x.Sort != "Slice" {
+			sfail("objOf of a non-slice")
+		}
+		return Val{S: slRef(x.S), Sort: "Int"}
+	case "rowOf": // rowOf(s): the current contents of the whole array object behind slice s (absolute positions)
+		x := arg(0)
+		if x.Sort != "Slice" {
+			sfail("rowOf of a non-slice")
+		}
+		es, _ := env.elemInfo(x)
+		return Val{S: sel(env.heap(m.compSliceHeap(es)), slRef(x.S)), Sort: "(Array Int " + es + ")"}
 	case "deferCount":
 		if env.st == nil {
 			sfail("deferCount outside a function body")
